@@ -181,7 +181,7 @@ class NCCHReader(TypeReaderCryptoBase):
 
     __slots__ = (
         '_all_sections', '_assume_decrypted', '_case_insensitive', '_exefs_crypto_ranges', '_exefs_fp',
-        '_exefs_special_handling', '_key_y', '_lock', '_seed_set_up', '_seed_verify', '_seeded_key_y', 'closed',
+        '_exefs_special_handling', '_key_y', '_lock', '_raw_fp', '_seed_set_up', '_seed_verify', '_seeded_key_y', 'closed',
         'content_size', 'exefs', 'extra_keyslot', 'flags', 'main_keyslot', 'partition_id', 'product_code', 'program_id',
         'romfs', 'sections', 'version'
     )
@@ -252,6 +252,10 @@ class NCCHReader(TypeReaderCryptoBase):
 
         # Threading lock to prevent two operations on one class instance from interfering with eachother.
         self._lock = Lock()
+
+        # get_data reads the file through a window of its own: a window does its seek and read under the lock that all
+        #   windows on this file share, so these reads can not be torn apart by a section handle used in another thread
+        self._raw_fp = SubsectionIO(self._file, self._start, 0xFFFFFFFF * NCCH_MEDIA_UNIT)
 
         # old decryption methods did not fix the flags, so sometimes we have to assume it is decrypted
         self._assume_decrypted = assume_decrypted
@@ -545,7 +549,8 @@ class NCCHReader(TypeReaderCryptoBase):
         # the full-decrypted handler is done outside of the thread lock
         if region.section == NCCHSection.FullDecrypted:
             # the content size comes from the header: never plan more 0x200-byte chunks than the file can hold
-            with self._lock:
+            # noinspection PyProtectedMember
+            with self._raw_fp._lock:
                 available = self._file.seek(0, 2) - self._start
             if offset + size > available:
                 size = available - offset
@@ -633,8 +638,8 @@ class NCCHReader(TypeReaderCryptoBase):
             # check if decryption is really needed
             if self._assume_decrypted or self.flags.no_crypto or region.section in NO_ENCRYPTION:
                 # this is currently used to support FullDecrypted. other sections use SubsectionIO + CTRFileIO.
-                self._file.seek(self._start + region.offset + offset)
-                return self._file.read(size)
+                self._raw_fp.seek(region.offset + offset)
+                return self._raw_fp.read(size)
 
             # thanks Stary2001 for help with random-access crypto
 
@@ -647,8 +652,8 @@ class NCCHReader(TypeReaderCryptoBase):
                 # this is currently used to support FullDecrypted. other sections use SubsectionIO + CTRFileIO.
 
                 # seek to the real offset of the section + the requested offset
-                self._file.seek(self._start + region.offset + offset)
-                data = self._file.read(size)
+                self._raw_fp.seek(region.offset + offset)
+                data = self._raw_fp.read(size)
 
                 # choose the extra keyslot only for RomFS here
                 # ExeFS needs special handling if a newer keyslot is used, therefore it's not checked here
